@@ -36,6 +36,19 @@ CHECKS = {
              "controller; an independent bytearray-file oracle decides the property on every history.",
         ref="4 C13", technique="Coq proof (invariant over op histories + refinement to an abstract file) + vm_compute correspondence on histories",
         note=TB + " The machine controller's read/write are replaced by a recording fake (C07 covers them)."),
+    "C01": dict(
+        text="Partial (end to end). Proved for all inputs: the composition theorem (any routing tree whose nodes agree with "
+             "the tables' first-match/default-routing behaviour is delivered exactly to its leaf cores and endpoint links, over "
+             "live hardware, without drop or circulation; no distinct-chips hypothesis needed), determinism and the default-"
+             "routing lemmas of the hardware model, and the soundness of the executable checker check_delivery w.r.t. the "
+             "inductive delivery semantics. The for-all over real place/route/minimise executions is carried per instance: "
+             "the real pipeline (7 placer configurations, both wrappers, all minimiser chains/targets) is run on generated "
+             "problems and every resulting mapping is decided inside Coq by check_delivery (each `true` is a kernel-checked "
+             "proof for that mapping) and by an independent Python packet simulator.",
+        ref="4 C01", technique="Coq proof (big-step delivery semantics, induction on routing trees, verified validator) + validator evaluated in Coq on real pipeline outputs",
+        note=TB + " That rig's router/table generator/minimisers always produce tree-consistent tables is C03/C10/C04; the "
+             "rig_c_sa annealing kernel is third-party compiled code (outputs validated only). Link/route numbering is tied to "
+             "the live modules by a regenerated unit (GenNetwork)."),
 }
 NOT_YET = {}
 def main():
